@@ -171,6 +171,9 @@ func (r *Run) MergePartial(path string) error {
 	for k, v := range p.ViolCount {
 		r.violCount[k] += v
 	}
+	for k, v := range p.Extra {
+		r.Extra[k] = v
+	}
 	if !p.Exhaustive {
 		r.Exhaustive = false
 	}
